@@ -146,7 +146,8 @@ def plan(chk):
         kw.setdefault("coin", COIN_NAMES[n % 8])
         kw.setdefault("verify", n % 2 == 0)
         kw.setdefault("genesis", n % 3 == 0)
-        specs.append(dict(case="case", seed=chk.seed, n=n, **kw))
+        kw.setdefault("seed", chk.seed)
+        specs.append(dict(case="case", n=n, **kw))
 
     bounds = BOUNDS_T if chk.thorough else BOUNDS_Q
     for dim in DIMS:
